@@ -11,7 +11,7 @@
    fsync_ignored_errnos = "descriptor cannot be synced").
    Environment assumption made explicit in [status_of]: an exception that leaves
    main or a thread, or a destructor, ends the process by abort() (SIGABRT). *)
-From PP Require Import Sys.ExitDefs Sys.ExitProofs.
+From PP Require Import Sys.ExitDefs Sys.ExitProofs Sys.ThreadedIODefs Sys.ThreadedIOProofs.
 Local Open Scope Z_scope.
 
 (* Any util-stream filter tool (any transducer [step]/[fin], any read size), any oracle:
@@ -41,6 +41,22 @@ Theorem C11_script_io_error_nonzero_exit0_all_accepted :
   (st = Exited 0 -> any_failed evs = false /\ forall fd, accepted fd evs = script_writes fd acts).
 Proof. exact script_spec_proof. Qed.
 Print Assumptions C11_script_io_error_nonzero_exit0_all_accepted.
+
+(* One output file of shard, end to end (util/threaded_buffered_stream.hh producer side = C20's
+   stream model, writer thread, ~WriteCompressed, ~FileWriter) for ANY list of lines routed to it and ANY
+   oracle: it terminates; a failed write/fsync/close on the file => the process is killed by SIGABRT
+   (exception in the writer thread or in a destructor); exit 0 => the file received exactly the lines,
+   each followed by a newline.  Assumes the block hand-off between the two threads is an exactly-once
+   FIFO (property C16). *)
+Theorem C11_shard_output_error_nonzero_exit0_all_accepted :
+  forall fd lines orc st evs,
+  threaded_file_run fd lines orc = (st, evs) ->
+  st <> StFuel /\
+  (any_failed evs = true -> st = Signaled SIGABRT) /\
+  (any_failed evs = false -> st = Exited 0) /\
+  (st = Exited 0 -> any_failed evs = false /\ accepted fd evs = file_content lines).
+Proof. exact threaded_file_spec_proof. Qed.
+Print Assumptions C11_shard_output_error_nonzero_exit0_all_accepted.
 
 (* iostream tools, for ANY segmentation of the output into write(2) calls by stdio:
    with the stream-state tests that the four mains contain today (regenerated booleans). *)
@@ -127,6 +143,12 @@ Example C11_nonvacuous_tool_benign :
            [Err EINTR; Ok 2 [97; 98]; Ok 1 [99]; Ok 0 []; Ok 2 []; Err EINTR; Ok 1 []; Err EINVAL] in
   st = Exited 0 /\ accepted 1 evs = [97; 98; 99] /\ any_failed evs = false /\ length evs = 10%nat.
 Proof. vm_compute. repeat split. Qed.
+
+(* shard output: 3 lines; the data write succeeds, the thread's fsync hits EIO: abort although every byte was accepted *)
+Example C11_nonvacuous_shard_output :
+  threaded_file_run 3 [[97]; [98; 99]; []] [Ok 6 []; Err EIO]
+  = (Signaled SIGABRT, [mkEv OpWrite 3 6 [97; 10; 98; 99; 10; 10] (Ok 6 []); mkEv OpFsync 3 0 [] (Err EIO)]).
+Proof. vm_compute. reflexivity. Qed.
 
 (* the unchecked iostream main of the original code exits 0 on a failed write (the defect that was fixed) *)
 Example C11_nonvacuous_iostream_unchecked_exits_0 :
